@@ -272,10 +272,10 @@ fn crash_hist(lo: usize, hi: usize) -> impl Strategy<Value = CrashHist> {
 
 pub fn c02(ctx: &mut Ctx) {
     ctx.level = "fault_enumeration".into();
-    ctx.rule = "histories of mutating queries (5-25 steps quick, <=60 thorough: node/edge/alias/value/index inserts, updates, removals, multi-element inserts that make collections grow and rehash, transactions incl. rolled-back ones) on Db and DbFile, with a final drop (defragmentation). A hook fires before every mutating file-system call of the data file and the recovery log; the engine copies both files at each event (quick: all events if <=150, else first/last event of every step, every log truncation and an even spread; thorough: <=1500). Oracle: each image opens with BOTH Db::new and DbFile::new (Ok, no panic) and the full canonical dump (every element, property, alias, index) completes with every query Ok. evaluations = image x opener. Non-trivial: the image was taken inside a step (not at its first event) with a non-empty recovery log. Distinct = hash of the image bytes.".into();
-    let cases = ctx.tier.pick(400, 3_000);
-    let (lo, hi) = ctx.tier.pick((5, 25), (5, 60));
-    let max_images = ctx.tier.pick(150, 1500);
+    ctx.rule = "histories of mutating queries (5-25 steps quick, <=50 thorough: node/edge/alias/value/index inserts, updates, removals, multi-element inserts that make collections grow and rehash, transactions incl. rolled-back ones) on Db and DbFile, with a final drop (defragmentation). A hook fires before every mutating file-system call of the data file and the recovery log; the engine copies both files at each event (quick: all events if <=150, else first/last event of every step, every log truncation and an even spread; thorough: <=600). Oracle: each image opens with BOTH Db::new and DbFile::new (Ok, no panic) and the full canonical dump (every element, property, alias, index) completes with every query Ok. evaluations = image x opener. Non-trivial: the image was taken inside a step (not at its first event) with a non-empty recovery log. Distinct = hash of the image bytes.".into();
+    let cases = ctx.tier.pick(400, 1_500);
+    let (lo, hi) = ctx.tier.pick((5, 25), (5, 50));
+    let max_images = ctx.tier.pick(150, 600);
     replay_saved::<CrashHist, _>(ctx, "c02-crash", |c| crash_hist_case(c, Mode::Readable, 100_000));
     run_campaign(ctx, CampaignCfg { name: "c02-crash", cases, max_shrink_iters: 400, max_restarts: 2 }, move || crash_hist(lo, hi), move |c| crash_hist_case(c, Mode::Readable, max_images));
 }
@@ -287,9 +287,9 @@ pub fn c02_replay(path: &str) -> i32 {
 pub fn c03(ctx: &mut Ctx) {
     ctx.level = "fault_enumeration".into();
     ctx.rule = "same engine and generator as C02 (histories of mutating queries and multi-query mutable transactions incl. ones whose closure returns Err after k queries, on Db and DbFile; crash image before every selected mutating file-system call). Oracle: the exact canonical dump of the reopened image (both openers) equals the exact dump of the live database taken before the interrupted step or the one taken after it; images between steps equal the dump after the previous step; images during the final defragmenting drop equal the final dump. evaluations = image x opener. Non-trivial: image taken inside a step with a non-empty recovery log; the label histogram reports how many images were taken after an internal commit of the interrupted step. Distinct = hash of the image bytes.".into();
-    let cases = ctx.tier.pick(400, 3_000);
-    let (lo, hi) = ctx.tier.pick((5, 25), (5, 60));
-    let max_images = ctx.tier.pick(150, 1500);
+    let cases = ctx.tier.pick(400, 1_500);
+    let (lo, hi) = ctx.tier.pick((5, 25), (5, 50));
+    let max_images = ctx.tier.pick(150, 600);
     replay_saved::<CrashHist, _>(ctx, "c03-crash", |c| crash_hist_case(c, Mode::Atomic, 100_000));
     run_campaign(ctx, CampaignCfg { name: "c03-crash", cases, max_shrink_iters: 400, max_restarts: 2 }, move || crash_hist(lo, hi), move |c| crash_hist_case(c, Mode::Atomic, max_images));
 }
